@@ -25,14 +25,28 @@ ASSUMPTIONS = [
     "duplicate rows in a batch receive equal update values (values are a function of the transition id), so 'the' updated value is unambiguous",
 ]
 TIERS = {"quick": {"runs": 1600}, "thorough": {"runs": 60000}}
-REQUIRED = ["law_sweeps", "priority_updates", "reset_max", "weights_checked", "priorities_huge_vs_tiny", "priorities_all_equal", "law_after_wrap_stale_priorities", "update_after_restart"]
+REQUIRED = ["training_priority_updates", "priority_monotone_batches", "law_sweeps", "priority_updates", "reset_max", "weights_checked", "priorities_huge_vs_tiny", "priorities_all_equal", "law_after_wrap_stale_priorities", "update_after_restart"]
 REQUIRED_QUICK = REQUIRED
-SHRINK_LISTS = [["ops"]]
+SHRINK_LISTS = [["ops"], ["env", "script"]]
 SHRINK_INTS = [(["n_tasks"], 0), (["obs_dim"], 0), (["act_dim"], 0)]
 CLAUSES = ["law", "update", "maxprio", "weights", "written", "stale", "fields", "task", "window", "trunc"]
 
 
 def make_plan(rng, tier, index):
+    if index % 50 == 49:
+        from rlsim import trainplan
+        name = ["td3_lap", "ddqn_per", "td7", "mrq"][(index // 50) % 4]
+        plan = trainplan.base_plan(rng, PROPERTY, ["C08.g", "C08.i"], name, T=rng.choice([20, 30]))
+        plan["kind"] = "train"
+        c = plan["cfg"]
+        c["lap_alpha"] = rng.choice([0.1, 0.4, 1.0])
+        c["lap_min_priority"] = rng.choice([0.01, 0.5, 1.0, 2.0, 5.0])
+        c["per_alpha"] = rng.choice([0.3, 0.6, 1.0])
+        if name != "mrq":
+            c["learning_starts"] = rng.choice([2, 4])
+        c["buffer_size"] = max(c["buffer_size"], 16)
+        plan["env"]["script"] = [dict(e, rew=[rng.choice([-30.0, -3.0, -1.0, 0.0, 0.5, 2.0, 10.0]) for _ in range(3)]) for e in plan["env"]["script"]]
+        return plan
     cls = rng.choice(["LAP", "LAP", "PrioritizedReplayBuffer", "PrioritizedReplayBuffer", "SubtrajectoryReplayBufferPER"])
     family = "sub" if cls.startswith("Sub") else "flat"
     n_tasks = rng.choice([0, 0, 0, 1, 2, 3])
@@ -56,4 +70,7 @@ def normalise(plan):
 
 
 def execute(plan):
+    if plan.get("kind") == "train":
+        from rlsim import trainsim
+        return trainsim.execute(plan)
     return buffersim.execute(plan)
